@@ -160,6 +160,17 @@ def _chunk(seed, lo, hi, extra):
                 x1, x2 = names[0], names[1]
                 lx = '<r><a %s="1" %s="p">same one</a><a %s="2" %s="q">same two</a><b/></r>' % (x1, x2, x1, x2)
                 rx = '<r><a %s="1" %s="q">same one</a><a %s="2" %s="p">same two</a><b/></r>' % (x1, x2, x1, x2)
+            comment_only = False
+            if force_uq is None and r.random() < 0.08:
+                # the documents differ only in a comment or in the text right after a comment (the xml formatter removes
+                # comments from the trees it is given)
+                comment_only = True
+                lx, rx = r.choice([
+                    ("<a><b>t</b><!--one--></a>", "<a><b>t</b><!--two--></a>"),
+                    ("<a><b>t</b></a>", "<a><b>t</b><!--new--></a>"),
+                    ("<a><!--c-->x<b/></a>", "<a><!--c-->y<b/></a>"),
+                    ("<a><b>t</b><!--gone-->tail</a>", "<a><b>t</b></a>"),
+                ])
             if r.random() < 0.3:
                 lx = '<?xml version="1.0" encoding="UTF-8"?>\n' + lx
             lf, rf = os.path.join(d, f"l{idx}.xml"), os.path.join(d, f"r{idx}.xml")
@@ -193,6 +204,11 @@ def _chunk(seed, lo, hi, extra):
             # ---------- (b) the command
             st.units["U10cli"] = st.units.get("U10cli", 0) + 1
             argv, req, a = rand_argv(r, force_uq)
+            if comment_only:
+                for _ in range(40):
+                    if a["chk"] and a["fmt"] == "xml":
+                        break
+                    argv, req, a = rand_argv(r, force_uq)
             calls = []
             orig = main.diff_files
 
@@ -215,17 +231,19 @@ def _chunk(seed, lo, hi, extra):
                 st.failures.append({"sig": f"C15/diff_command-raises/{type(exc).__name__}", **desc2})
                 continue
             if not calls:
+                # the plan cannot be read off the call; the oracles on the output and on the exit status below do not
+                # depend on how the command reaches the differ
                 st.disagreements.append({"unit": "U10", "what": "diff_command did not call diff_files", **desc2})
-                continue
-            fobj, fopts = calls[0]
-            plan, pretty = enc_plan_from_call(fobj, fopts)
-            want_pp = "1" if a["pp"] else "0"
-            if a["fmt"] == "xml":
-                got_pp = "1" if pretty else "0"
             else:
-                got_pp = want_pp  # only the xml formatter keeps the flag
-            reqs.append("plan\t" + req)
-            pend.append((plan.replace("{pp}", got_pp), desc2))
+                fobj, fopts = calls[0]
+                plan, pretty = enc_plan_from_call(fobj, fopts)
+                want_pp = "1" if a["pp"] else "0"
+                if a["fmt"] == "xml":
+                    got_pp = "1" if pretty else "0"
+                else:
+                    got_pp = want_pp  # only the xml formatter keeps the flag
+                reqs.append("plan\t" + req)
+                pend.append((plan.replace("{pp}", got_pp), desc2))
             # stdout == file API
             fm = {"diff": formatting.DiffFormatter, "xml": formatting.XMLFormatter, "old": formatting.XmlDiffFormatter}[a["fmt"]]
             normalize = formatting.WS_NONE if a["kw"] else formatting.WS_BOTH
